@@ -78,7 +78,9 @@ def run(tier, seed):
                     if s.get("ta") and s["dur"] > s["period"]})
     chk.assumptions = ["timer accuracy and signal delivery latency within 0.45 time units (68 ms at u = 150 ms); "
                        "failures that depend on a measured time must reproduce with the unit doubled twice",
-                       "setup scripts share the wait loop text with tests; only tests are exercised end to end"]
+                       "setup scripts share the wait loop text with tests in the model; both kinds are exercised end to end",
+                       "history theorems (Properties/C09.v) hold under the environment premise of Model/UnitMonitor.v "
+                       "(dispatcher alternation + nextest's own stop) and up to the first shutdown request"]
     return chk.finish(gate, "make -C coq Properties/C09.vo + Print Assumptions",
                       ["Coq 8.16.1 kernel + vm_compute", "Model/UnitTimers.v, Model/UnitEnv.v (hand-written), "
                        "tied by end-to-end runs (hook H1 tap, puppet signal log)", "lib/units_e2e.py, e2e/puppet.py",
